@@ -261,6 +261,43 @@ def case_oracle(case, res: ShardResult | None = None):
                 return Failure("equal-but-hash-differs", "tag added and "
                                "removed: hash differs from the original's",
                                type(x).__name__), info
+        # --- (a'') mappings are compared as mappings: the same bindings /
+        # returns inserted in another order give an equal node with the same
+        # hash; a function definition that returns a strict subset of
+        # another's results is unequal to it, in both directions
+        from constantdict import constantdict
+        from pytato.function import FunctionDefinition
+        for n in reflect.walk(a).values():
+            if isinstance(n, pt.IndexLambda) and len(n.bindings) >= 2:
+                rev = dataclasses.replace(n, bindings=constantdict(
+                    reversed(list(n.bindings.items()))))
+                info["reordered"] = info.get("reordered", 0) + 1
+                f = eq_checks(n, rev, "IndexLambda with its bindings inserted "
+                              "in reverse order")
+                if f:
+                    return f, info
+            if type(n).__name__ == "LoopyCall" and len(n.bindings) >= 2:
+                rev = dataclasses.replace(n, bindings=constantdict(
+                    reversed(list(n.bindings.items()))))
+                f = eq_checks(n, rev, "LoopyCall with its bindings inserted in "
+                              "reverse order")
+                if f:
+                    return f, info
+            if isinstance(n, FunctionDefinition) and len(n.returns) >= 2:
+                items = list(n.returns.items())
+                rev = dataclasses.replace(n, returns=constantdict(
+                    reversed(items)))
+                f = eq_checks(n, rev, "FunctionDefinition with its returns "
+                              "inserted in reverse order")
+                if f:
+                    return f, info
+                sub = dataclasses.replace(n, returns=constantdict(items[:-1]))
+                if (n == sub) or (sub == n):
+                    return Failure(
+                        "different-but-equal", "FunctionDefinition vs the same "
+                        "definition returning one result less: "
+                        f"full == sub is {n == sub}, sub == full is {sub == n}",
+                        "FunctionDefinition.returns"), info
         # --- (b) single-field mutations
         nodes = [n for n in reflect.topo_order(a)
                  if dataclasses.is_dataclass(n) or isinstance(
